@@ -6,13 +6,16 @@ A candidate is kept while a violation of the *same class* persists.
 """
 import copy
 
+from .core import isolated
+
 
 def family(cls: str) -> str:
     "Violation family: property/oracle (the third segment only says when it was noticed)."
     return "/".join(cls.split("/")[:2])
 
 
-def minimise(engine, case, cls, max_exec=600):
+def minimise(engine, case, cls, max_exec=None):
+    max_exec = max_exec or getattr(engine, "SHRINK_EXEC", 600)
     n_exec = [0]
     best_v = [None]
 
@@ -23,7 +26,7 @@ def minimise(engine, case, cls, max_exec=600):
         c = dict(base or case)
         c["ops"] = ops
         try:
-            r = engine.execute(copy.deepcopy(c))
+            r = isolated(engine.execute, copy.deepcopy(c))
         except Exception:
             return False
         v = r["violation"]
@@ -38,7 +41,7 @@ def minimise(engine, case, cls, max_exec=600):
     # rewrite modulo references as stable ones (names of the ops that created the operands),
     # so that deleting an op does not re-target the others
     try:
-        r = engine.execute({**copy.deepcopy(case), "want_resolved": True})
+        r = isolated(engine.execute, {**copy.deepcopy(case), "want_resolved": True})
         res_ops = r.get("resolved_ops")
         if res_ops and test(res_ops):
             ops = res_ops
